@@ -632,11 +632,14 @@ structure Tables where
   cli : List (Str × CliKind × Option PyVal)
   /-- variant switch: the project's `extra_mods` entries win over `INTRINSIC_MODS` (repaired) -/
   modsUserWins : Bool := false
+  /-- variant switch: `parse_arguments` appends the final output directory to `exclude_dir` (repair 4833068) -/
+  excludeFinalOut : Bool := false
 
 def generatedTables : Tables :=
   { schema := Generated.settingsSchema, seps := Generated.optionSeparators,
     intrinsic := Generated.intrinsicMods, licenses := Generated.licenses,
-    sentinels := Generated.sentinelTests, cli := Generated.cliTable }
+    sentinels := Generated.sentinelTests, cli := Generated.cliTable,
+    excludeFinalOut := Generated.excludeFinalOutputDir }
 
 /-- the tables with the variant `repaired` of the `extra_mods` merge -/
 def generatedTablesModsRepaired : Tables := { generatedTables with modsUserWins := true }
@@ -650,6 +653,14 @@ def loadSettings (T : Tables) (toml : Option Settings) (md : List Str) : Except 
     | .error e => .error e
   | none => loadMd T.schema T.seps T.intrinsic md T.modsUserWins
 
+/-- `if proj_data.output_dir not in proj_data.exclude_dir: proj_data.exclude_dir.append(proj_data.output_dir)`
+    (both normalised by then; anything else than a list and a path is left alone) -/
+def excludeOutputDir (s : Settings) : Settings :=
+  match getD "exclude_dir" s, getD "output_dir" s with
+  | .list xs, .atom (.path out) =>
+    if xs.contains (.path out) then s else aset "exclude_dir".toList (.list (xs ++ [.path out])) s
+  | _, _ => s
+
 /-- `parse_arguments` after `load_settings`; `cli` holds the options given on the command
     line, the namespace FORD sees is `cliNamespace T.cli cli` -/
 def parseArguments (T : Tables) (dir pkg : Str) (config : Option Settings) (cli : Settings) (s : Settings) :
@@ -662,7 +673,7 @@ def parseArguments (T : Tables) (dir pkg : Str) (config : Option Settings) (cli 
   | .ok s =>
     match normalisePaths T.schema T.sentinels dir pkg s with
     | .error e => .error e
-    | .ok s => finalize T.licenses s
+    | .ok s => finalize T.licenses (if T.excludeFinalOut then excludeOutputDir s else s)
 
 def effective (T : Tables) (dir pkg : Str) (toml : Option Settings) (md : List Str)
     (config : Option Settings) (cli : Settings) : Except Err (Settings × List Str) :=
